@@ -123,6 +123,10 @@ func (m *machine) registerIntrinsics() {
 		}
 		return nil
 	}
+	in[vs+"AllocLimit"] = func(fr *frame, fn *ssa.Function, args []value) value {
+		fr.i.allocLimit = asInt64(args[0])
+		return nil
+	}
 	in[vs+"Cover"] = func(fr *frame, fn *ssa.Function, args []value) value {
 		fr.i.covers[concString(args[0])] = true
 		return nil
